@@ -94,6 +94,10 @@ def generate(ctx):
                 v0, text = unit
                 reps = rng.choice([40, 50, 60, 62, 63, 64, 65, 70])
                 yield "repair", dict(gcase, start=int(v0), s=text * reps, tag="many-error-sites", **opts())
+                if rng.random() < ctx.pick(0.25, 0.5):
+                    # more than a thousand error sites: with one candidate each the product stays within any heap limit
+                    yield "repair", dict(gcase, start=int(v0), s=text * rng.choice([1000, 1100, 1250]), tag="thousand-error-sites",
+                                         indel=False, heap=1e4, nvt=0)
         for _w in range(ctx.pick(3, 5)):
             start = rng.choice(live)
             w = G.random_walk(acc, start, rng.choice([k, 2 * k + 1, 4 * k + 3, 8 * k + 5, 14 * k + 9]), rng)
@@ -163,11 +167,17 @@ def _closed_walk_with_error(rng, acc, k, live):
 def check_repair(ctx, case):
     dsw = import_dsw()
     acc = gens.acc_of(case)
+    if hash(case["s"]) % 9 == 0:
+        acc = np.asfortranarray(acc)
+        ctx.cls("accessor layout|F")
     k, s, start = case["k"], case["s"], case["start"]
     if len(s) < k:
         return
     check = gens.random_dna(ctx.rng, case["nvt"]) if case["nvt"] and ctx.rng.random() < 0.5 else (oracles.vt(s, case["nvt"]) if case["nvt"] else None)
-    kind, res, reads, steps = call_repair(dsw, s, acc, start, k, check=check, has_indel=case["indel"], heap=case["heap"], count_reads=True)
+    kind, res, reads, steps = call_repair(dsw, s, acc, start, k, check=check, has_indel=case["indel"], heap=case["heap"],
+                                          count_reads=bool(acc.flags.c_contiguous))
+    if reads is None:
+        reads = 0
     n = len(s)
     where = "k=%d start=%s (%d) s=%s check=%s has_indel=%s heap=%g graph=%s" % (k, G.kmer(start, k), start, s, check, case["indel"], case["heap"], case["arcs"])
     ctx.obs("lookups_over_budget", reads / repair_budget_reads(n, k))
@@ -195,7 +205,7 @@ def floors(agg, tier):
     c = agg["classes"]
     for name, need in (("string|first-not-an-arc", 500), ("string|dead-start", 50), ("string|last-window", 300),
                        ("string|first-window", 300), ("string|random", 200), ("string|alternating", 200), ("string|length-k", 200),
-                       ("string|edited", 500), ("family|raw", 200), ("string|many-error-sites", 30), ("string|order-8", 20)):
+                       ("string|edited", 500), ("family|raw", 200), ("string|many-error-sites", 30), ("string|order-8", 20), ("string|thousand-error-sites", 10), ("accessor layout|F", 500)):
         if c.get(name, 0) < need:
             out.append("%s observed %d < %d" % (name, c.get(name, 0), need))
     return out
